@@ -20,7 +20,8 @@ import (
 //
 //	direct : one aggregator object (aggregator.CreateBuiltinAggregator(kind).New() or
 //	         functions.CreateParameterizedAggregator for percentile p / nth_value n):
-//	         ops `new` (instance = instance.New(), i.e. New from a *used* instance) and `add <val>`;
+//	         ops `new` (instance = instance.New(), i.e. New from a *used* instance), `add <val>` and
+//	         `perm rev|rot k` (a fresh instance fed with the same values in reversed / rotated order);
 //	         obs `r <Result()>` after every op.
 //	ga     : one aggregator.GroupAggregator: ops `row <k v …>` (Add), `results` (GetResults, rows
 //	         sorted by group key), `reset`.
@@ -264,6 +265,13 @@ func genDirect(rng *rand.Rand, idx int) Case {
 			}
 			prev = append(prev, v)
 			c.Ops = append(c.Ops, []string{"add", v})
+			if i > 0 && rng.Intn(6) == 0 { // the same values in another order, on a fresh instance
+				if rng.Intn(2) == 0 {
+					c.Ops = append(c.Ops, []string{"perm", "rev", "0"})
+				} else {
+					c.Ops = append(c.Ops, []string{"perm", "rot", strconv.Itoa(1 + rng.Intn(3))})
+				}
+			}
 		}
 		n = []int{0, 1, 2, 3, 4, 7}[rng.Intn(6)]
 	}
@@ -456,8 +464,8 @@ func genSQL(rng *rand.Rand) Case {
 		if rng.Intn(6) == 0 {
 			return "n"
 		}
-		// the expression engine computes int∘int in integers; keep |ints| < 2^53 so that the
-		// result equals the float64 computation of the model (integer arithmetic is C06 / C12)
+		// the expression engine computes int∘int in integers (modelled); keep the 2^53+1 int out so that
+		// no product overflows int64 (wrap-around of Go ints is not modelled; integer arithmetic is C06 / C12)
 		for {
 			if t := genNum(rng); t != "i:9007199254740993" {
 				return t
@@ -540,12 +548,31 @@ func execDirect(c Case) [][][]string {
 		inst = wrapLegacy(aggregator.CreateBuiltinAggregator(aggregator.AggregateType(kind))).fresh()
 	}
 	var out [][][]string
+	var hist []string // value tokens handed to the current instance, in order
 	for _, op := range c.Ops {
 		switch op[0] {
 		case "new":
 			inst = inst.fresh()
+			hist = nil
 		case "add":
 			inst.add(tokVal(op[1]))
+			hist = append(hist, op[1])
+		case "perm": // fresh instance, same values, permuted order (reverse / rotate left by k)
+			k, _ := strconv.Atoi(op[2])
+			var p []string
+			if op[1] == "rev" {
+				for i := len(hist) - 1; i >= 0; i-- {
+					p = append(p, hist[i])
+				}
+			} else if len(hist) > 0 {
+				k %= len(hist)
+				p = append(append(p, hist[k:]...), hist[:k]...)
+			}
+			inst = inst.fresh()
+			for _, t := range p {
+				inst.add(tokVal(t))
+			}
+			hist = p
 		default:
 			out = append(out, [][]string{{"bad-op"}})
 			continue
